@@ -2,13 +2,17 @@
    the configuration, the DA contents, the history it ran against the real based.Sequencer, and per call
    what it observed (projections only): the response (ids as (height, index), timestamp as DA height), the
    DA heights retrieved, the persisted scan position, the in-memory and the persisted carry-over queue.
+   Calls whose request cannot be used (foreign chain id, malformed LastBatchData) and calls under a cancelled
+   context are part of the histories: for them the same five observables are compared.
    [mismatches] lists the cases on which the model disagrees (index, what differs). *)
 From Coq Require Import NArith List Bool.
 From Verif Require Import Model.Based.
 Import ListNotations.
 Open Scope N_scope.
 
-Inductive oresp := RFail | RNone | RBatch (ids : list (N * N)) (ts : option N).
+(* RFail k: GetNextBatch returned an error; k = its class: 1 = ErrInvalidId (errors.Is), 2 = "failed to get last
+   DA height" (the LastBatchData error), 3 = the context's error, 9 = anything else *)
+Inductive oresp := RFail (k : N) | RNone | RBatch (ids : list (N * N)) (ts : option N).
 Definition oqueue := list (list (N * N) * option N).
 
 Record obs := { o_resp : oresp; o_log : list N; o_scan : option N; o_mem : oqueue; o_dur : oqueue }.
@@ -38,6 +42,8 @@ Definition resp_eqb (m : response) (o : oresp) : bool :=
   match m, o with
   | MNone, RNone => true
   | MBatch txs ts, RBatch ids ots => list_eqb pair_eqb (ids_of txs) ids && optN_eqb ts ots
+  | MErr EInvalidId, RFail k => k =? 1
+  | MErr EBadLbd, RFail k => k =? 2
   | _, _ => false
   end.
 
